@@ -186,6 +186,10 @@ def run_rot(u):
         rep.queries += ex.nqueries; rep.solver_time += ex.qtime
         return ex.results
     def discharge(results, label, replay=None):
+        if replay is None:
+            def replay(model, what=what):
+                vals = {d.name(): float(model_value(model, d())) for d in model.decls() if d.arity() == 0 and d.range() == z3.RealSort() and '!' not in d.name()}
+                return native_rot(what, vals)
         for ctx, res in results:
             I, dom, obs, assum = res
             rep.paths += 1; rep.add_interp(I)
@@ -538,6 +542,65 @@ def native_from_to(vals):
     key = 'C20:init_from_to:' + ('antiparallel-branch' if anti else 'generic')
     return bad, key, "reb_rotation_init_from_to(from=%r, to=%r): |q|^2=%.6g, rotated from/|from| differs from to/|to| by %.3g" % ((fr.x, fr.y, fr.z), (to.x, to.y, to.z), nq, err), dict(vals=vals)
 
+def native_rot(what, vals):
+    """native twin of the rotation units without a dedicated replay: the same defining relations, evaluated on the library with the model's values"""
+    global _nat
+    if _nat is None: _nat = Native()
+    class V3(ctypes.Structure): _fields_ = [('x', ctypes.c_double), ('y', ctypes.c_double), ('z', ctypes.c_double)]
+    class Q(ctypes.Structure): _fields_ = [('ix', ctypes.c_double), ('iy', ctypes.c_double), ('iz', ctypes.c_double), ('r', ctypes.c_double)]
+    lib = _nat.lib
+    def fn(name, res, args):
+        f = getattr(lib, name); f.restype = res; f.argtypes = args; return f
+    def ql(q): return [q.ix, q.iy, q.iz, q.r]
+    def g(prefix, n): return [float(vals.get('%s%d' % (prefix, k), 0.0)) for k in range(n)]
+    bad = []
+    def chk(name, a, b, scale=1.0):
+        if not abs(a - b) <= 1e-9 * (abs(scale) + abs(a) + abs(b)) + 1e-300: bad.append("%s: %r vs %r" % (name, a, b))
+    big = max([abs(v) for v in vals.values()] + [0.0])
+    if not big < 1e60: return False, 'C20:rot:' + what, 'degenerate model', dict(what=what, vals=vals)
+    if what == 'lemmas':
+        q = g('q', 4); p = g('p', 4); v = g('v', 3)
+        nq = math.sqrt(sum(c * c for c in q))
+        if not nq > 1e-100 or not sum(c * c for c in p) > 1e-200: return False, 'C20:rot:lemmas', 'degenerate model', dict(what=what, vals=vals)
+        q = [c / nq for c in q]
+        pq = ql(fn('reb_rotation_mul', Q, [Q, Q])(Q(*p), Q(*q))); ref = qmul(p, q); sc = max(abs(c) for c in p)
+        for k in range(4): chk("reb_rotation_mul component %d vs Hamilton product" % k, pq[k], ref[k], sc)
+        qi = ql(fn('reb_rotation_inverse', Q, [Q])(Q(*q))); ident = qmul(q, qi)
+        for k in range(4): chk("q * inverse(q) component %d" % k, ident[k], 1.0 if k == 3 else 0.0, 1.0)
+        pn = ql(fn('reb_rotation_normalize', Q, [Q])(Q(*p))); chk("|normalize(p)|^2", sum(c * c for c in pn), 1.0)
+        chk("length_squared(p)", fn('reb_rotation_length_squared', ctypes.c_double, [Q])(Q(*p)), sum(c * c for c in p))
+        vv = V3(*v); fn('reb_vec3d_irotate', None, [ctypes.POINTER(V3), Q])(ctypes.byref(vv), Q(*q)); want, _ = qrot(q, v); sv = max(abs(c) for c in v)
+        for k, c in enumerate((vv.x, vv.y, vv.z)): chk("irotate(v,q) component %d vs q v q*" % k, c, want[k], sv)
+    elif what == 'orbit':
+        Om, inc, om = vals.get('Omega', 0.0), vals.get('inc', 0.0), vals.get('omega', 0.0)
+        if not max(abs(Om), abs(inc), abs(om)) < 1e6: return False, 'C20:rot:orbit', 'degenerate model', dict(what=what, vals=vals)
+        q = ql(fn('reb_rotation_init_orbit', Q, [ctypes.c_double] * 3)(Om, inc, om))
+        P1 = [0, 0, math.sin(om / 2), math.cos(om / 2)]; P2 = [math.sin(inc / 2), 0, 0, math.cos(inc / 2)]; P3 = [0, 0, math.sin(Om / 2), math.cos(Om / 2)]
+        ref = qmul(P3, qmul(P2, P1))
+        for k in range(4): chk("init_orbit component %d vs Rz(Omega) Rx(inc) Rz(omega)" % k, q[k], ref[k], 1.0)
+    elif what == 'angle_axis':
+        ax = g('a', 3); ang = vals.get('angle', 0.0); la = math.sqrt(sum(c * c for c in ax))
+        if not la > 1e-100 or not abs(ang) < 1e6: return False, 'C20:rot:angle_axis', 'degenerate model', dict(what=what, vals=vals)
+        q = ql(fn('reb_rotation_init_angle_axis', Q, [ctypes.c_double, V3])(ang, V3(*ax)))
+        chk("real part vs cos(angle/2)", q[3], math.cos(ang / 2))
+        for k in range(3): chk("imaginary part %d vs sin(angle/2) axis/|axis|" % k, q[k], math.sin(ang / 2) * ax[k] / la)
+    elif what == 'normalize':
+        v = g('v', 3); lv = math.sqrt(sum(c * c for c in v))
+        if not lv > 1e-100: return False, 'C20:rot:normalize', 'degenerate model', dict(what=what, vals=vals)
+        w = fn('reb_vec3d_normalize', V3, [V3])(V3(*v))
+        for k, c in enumerate((w.x, w.y, w.z)): chk("normalize(v) component %d" % k, c, v[k] / lv)
+    elif what == 'from_to_reduced':
+        f_ = g('f', 3); t_ = g('t', 3); lf = math.sqrt(sum(c * c for c in f_)); lt = math.sqrt(sum(c * c for c in t_))
+        if not (lf > 1e-100 and lt > 1e-100): return False, 'C20:rot:from_to_reduced', 'degenerate model', dict(what=what, vals=vals)
+        f_ = [c / lf for c in f_]; t_ = [c / lt for c in t_]
+        if sum((a + b) ** 2 for a, b in zip(f_, t_)) < 1e-6: return False, 'C20:rot:from_to_reduced', 'degenerate model', dict(what=what, vals=vals)
+        q = ql(fn('reb_rotation_init_from_to', Q, [V3, V3])(V3(*f_), V3(*t_))); r_, _ = qrot(q, f_)
+        chk("|q|^2", sum(c * c for c in q), 1.0)
+        for k in range(3): chk("rotated from, component %d" % k, r_[k], t_[k], 1.0)
+    else:
+        return False, 'C20:rot:' + what, 'no native twin', dict(what=what, vals=vals)
+    return bool(bad), 'C20:rot:' + what, "native %s: %s" % (what, '; '.join(bad[:4]) or 'defining relations hold'), dict(kind='rot', what=what, vals=vals)
+
 def native_to_new_axes(what, vals):
     global _nat
     if _nat is None: _nat = Native()
@@ -555,6 +618,8 @@ def native_to_new_axes(what, vals):
     return bad, 'C20:init_to_new_axes:degenerate-second-rotation', "reb_rotation_init_to_new_axes(newz=%r, newx=%r) maps newz to %r (must be on the +z axis)" % ((newz.x, newz.y, newz.z), (newx.x, newx.y, newx.z), (rz.x, rz.y, rz.z)), dict(kind='to_new_axes', what=what, vals=vals)
 
 def replay(data):
+    if data.get('kind') == 'rot':
+        r = native_rot(data['what'], data['vals']); return r[0], r[2]
     if data.get('kind') == 'units_fn':
         U = load_units(); f_ = getattr(U, data['fn']); a_ = data['args']; xv = data['x']
         Lr, Tr = U.lengths_SI, U.times_SI
